@@ -13,8 +13,8 @@ class C20(CollProperty):
     quick_runs = 1500
     quick_budget_s = 150
     thorough_budget_s = 900
-    rule = ("schema library of 19 shapes (TS<Int>, TS<Str>, SIGNAL, TSS<Int|Str>, TSD<Int|Str,TS>, TSL, TSB, TSB{TS,TSS}, TSW, TSD<TSB>, TSD<TSD>, TSD<TSS>, "
-            "TSL<TSS>, TSD<Str,TSL>, TSD<TSW>, TSB{TS,TSL}, TSB{TS,TSB}) x seeded tick histories with gaps, removals, child-only ticks, cancelling mutations. Run 1: writer -> record (B1) "
+    rule = ("schema library of 22 shapes (TS<Int>, TS<Str>, SIGNAL, TSS<Int|Str>, TSD<Int|Str,TS>, TSL, TSB, TSB{TS,TSS}, TSW, TSD<TSB>, TSD<TSD>, TSD<TSS>, "
+            "TSL<TSS>, TSD<Str,TSL>, TSD<TSW>, TSD<TSB{TS,TSS}>, TSL<TSB>, TSB{TS,TSL}, TSB{TS,TSB}, TSB{TS,TSW}) x seeded tick histories with gaps, removals, child-only ticks, cancelling mutations. Run 1: writer -> record (B1) "
             "and writer -> mirror (apply_delta(out, capture_delta(in))) -> record (B1m); run 2 (fresh executor whose GlobalState is seeded with run 1's): "
             "replay(B1) -> record (B2). Oracle: B2 == B1 and B1m == B1 cycle for cycle (same cycles, same deltas); at every tick the mirror's value equals "
             "the writer's value. non-trivial = >= 2 recorded ticks; distinct = distinct (shapes, scripts)")
